@@ -588,6 +588,9 @@ func (s *AbsfsNFS) CreateWithContext(ctx context.Context, dir *NFSNode, name str
 	s.attrCache.Invalidate(dir.path)
 	s.attrCache.InvalidateNegativeInDir(dir.path)
 	s.attrCache.Invalidate(path) // Also invalidate the specific path in case it was negatively cached
+	// Paths below the new object were absent (ENOENT) and may be cached as such; below a
+	// non-directory they now fail with ENOTDIR, so those negative entries are stale too.
+	s.attrCache.InvalidateTree(path)
 	if s.dirCache != nil {
 		s.dirCache.Invalidate(dir.path)
 	}
@@ -985,6 +988,9 @@ func (s *AbsfsNFS) Symlink(dir *NFSNode, name string, target string, attrs *NFSA
 	s.attrCache.Invalidate(dir.path)
 	s.attrCache.InvalidateNegativeInDir(dir.path)
 	s.attrCache.Invalidate(path) // Also invalidate the specific path in case it was negatively cached
+	// Paths below the new object were absent (ENOENT) and may be cached as such; below a
+	// non-directory they now fail with ENOTDIR, so those negative entries are stale too.
+	s.attrCache.InvalidateTree(path)
 	if s.dirCache != nil {
 		s.dirCache.Invalidate(dir.path)
 	}
